@@ -18,9 +18,12 @@
 (*  S      spec(B1).subset(["A"]).get_model_matrix(d1)                       *)
 (*  P      pickle round trip of spec(B1), then .get_model_matrix(d2)         *)
 (*  UPD    spec(B1).update(output="numpy").get_model_matrix(d2)              *)
+(*  MF MN  materializer(d2).get_model_matrix(formula text), pandas / sparse  *)
+(*  MR     materializer(d2).get_model_matrix(spec(B1))   (ONE shared         *)
+(*         materializer instance for MF, MN, MR)                             *)
 (***************************************************************************)
 EXTENDS Integers, Sequences, FiniteSets
-Ops == {"B1", "B2", "F1", "U1", "U2", "R", "S", "P", "UPD"}
+Ops == {"B1", "B2", "F1", "U1", "U2", "R", "S", "P", "UPD", "MF", "MN", "MR"}
 Objects == {"d1", "d2", "formula", "uspec", "spec1", "context"}      \* context: the caller's mapping and the objects in it
 \* abstract results and fingerprints: symbolic constants
 ResultOf(op) == op
